@@ -127,7 +127,8 @@ const (
 
 // Data chunk errors.
 var (
-	ErrChunkPayloadSmall = errors.New("packet is smaller than the header size")
+	ErrChunkPayloadSmall      = errors.New("packet is smaller than the header size")
+	ErrChunkPayloadNoUserData = errors.New("DATA chunk carries no user data")
 )
 
 func (p PayloadProtocolIdentifier) String() string {
@@ -258,6 +259,13 @@ func (p *chunkPayloadData) marshal() ([]byte, error) { //nolint:cyclop
 }
 
 func (p *chunkPayloadData) check() (abort bool, err error) {
+	// RFC 9260 section 3.3.1: a DATA chunk with no user data is a protocol
+	// error (ABORT, "No User Data"). It would also be stored without costing
+	// the peer any receive window.
+	if len(p.userData) == 0 {
+		return true, ErrChunkPayloadNoUserData
+	}
+
 	return false, nil
 }
 
